@@ -308,7 +308,10 @@ def make_factory_kw_harness(n):
                     ex.check(tasks[a] is tasks[b], 'factory-kw:identical-requests-get-the-same-task')
                 if eff[a] != eff[b]:
                     ex.check(tasks[a] is not tasks[b], 'factory-kw:different-command-lines-never-share-a-task')
-                    ex.check(posts[a] is not posts[b] and set(posts[a].depends_on) == {tasks[a]} and set(posts[b].depends_on) == {tasks[b]},
+                    # (a wrapper task may be shared with an EQUIVALENT request made on another factory object -- same name, same
+                    # command line --, hence names and not identities on the right-hand sides)
+                    ex.check(posts[a] is not posts[b] and {t.name for t in posts[a].depends_on} == {tasks[a].name}
+                             and {t.name for t in posts[b].depends_on} == {tasks[b].name},
                              'factory-kw:post-processing-of-different-runs-is-never-shared',
                              detail=f'{tasks[a].name} / {tasks[b].name}')
             for r in range(n):
